@@ -111,8 +111,139 @@ pub open spec fn st_data_s(d: &Data) -> Seq<u8>
 }
 
 
+// ---------- fold-shaped specs (mirror the computation) ----------
+pub open spec fn h_ty(s: u64, t: &DataModelType) -> u64
+    decreases t, 0int, 0int
+{
+    match t {
+        DataModelType::Bool => fnv_step(s, 0x11u8),
+        DataModelType::U8 => fnv_step(s, 0x3Du8),
+        DataModelType::Option(i) => h_ty(fnv_step(s, 0x6Du8), i),
+        DataModelType::Tuple(ts) => h_tys(fnv_step(s, 0xA7u8), ts@, ts@.len() as int),
+        DataModelType::Struct { name, data } => h_data_s(s, data),
+        DataModelType::Enum { name, variants } => h_vars(fnv_step(s, 0xE9u8), variants@, variants@.len() as int),
+    }
+}
+pub open spec fn h_tys(s: u64, ts: Seq<&'static DataModelType>, n: int) -> u64
+    decreases ts, 1int, n
+{ if 0 < n <= ts.len() { h_ty(h_tys(s, ts, n - 1), ts[n - 1]) } else { s } }
+pub open spec fn h_nfs(s: u64, ts: Seq<&'static NamedField>, n: int) -> u64
+    decreases ts, 1int, n
+{ if 0 < n <= ts.len() { h_nf(h_nfs(s, ts, n - 1), ts[n - 1]) } else { s } }
+pub open spec fn h_vars(s: u64, ts: Seq<&'static Variant>, n: int) -> u64
+    decreases ts, 1int, n
+{ if 0 < n <= ts.len() { h_var(h_vars(s, ts, n - 1), ts[n - 1]) } else { s } }
+pub open spec fn h_nf(s: u64, f: &NamedField) -> u64
+    decreases f, 0int, 0int
+{ h_ty(fnv(s, f.name.spec_bytes()), f.ty) }
+pub open spec fn h_var(s: u64, v: &Variant) -> u64
+    decreases v, 0int, 0int
+{
+    let s1 = fnv(s, v.name.spec_bytes());
+    match v.data {
+        Data::Unit => fnv_step(s1, 0xB5u8),
+        Data::Newtype(t) => h_ty(fnv_step(s1, 0xDFu8), t),
+        Data::Tuple(ts) => h_tys(fnv_step(s1, 0xC7u8), ts@, ts@.len() as int),
+        Data::Struct(fs) => h_nfs(fnv_step(s1, 0x67u8), fs@, fs@.len() as int),
+    }
+}
+pub open spec fn h_data_s(s: u64, d: &Data) -> u64
+    decreases d, 0int, 0int
+{
+    match d {
+        Data::Unit => fnv_step(s, 0xBFu8),
+        Data::Newtype(t) => h_ty(fnv_step(s, 0x9Du8), t),
+        Data::Tuple(ts) => h_tys(fnv_step(s, 0x05u8), ts@, ts@.len() as int),
+        Data::Struct(fs) => h_nfs(fnv_step(s, 0x7Fu8), fs@, fs@.len() as int),
+    }
+}
+
+// ---------- fold == declarative stream ----------
+proof fn fnv1(s: u64, b: u8)
+    ensures fnv(s, seq![b]) == fnv_step(s, b)
+{
+    assert(seq![b].drop_last() =~= Seq::<u8>::empty());
+    assert(fnv(s, Seq::<u8>::empty()) == s);
+}
+
+proof fn eq_ty(s: u64, t: &DataModelType)
+    ensures h_ty(s, t) == fnv(s, st_ty(t))
+    decreases t, 0int, 0int
+{
+    match t {
+        DataModelType::Bool => {}
+        DataModelType::U8 => {}
+        DataModelType::Option(i) => { eq_ty(fnv(s, seq![0x6Du8]), i); fnv_concat(s, seq![0x6Du8], st_ty(i)); }
+        DataModelType::Tuple(ts) => { eq_tys(fnv(s, seq![0xA7u8]), ts@, ts@.len() as int); fnv_concat(s, seq![0xA7u8], st_tys(ts@, ts@.len() as int)); }
+        DataModelType::Struct { name, data } => { eq_data_s(s, data); }
+        DataModelType::Enum { name, variants } => { eq_vars(fnv(s, seq![0xE9u8]), variants@, variants@.len() as int); fnv_concat(s, seq![0xE9u8], st_vars(variants@, variants@.len() as int)); }
+    }
+}
+proof fn eq_tys(s: u64, ts: Seq<&'static DataModelType>, n: int)
+    ensures h_tys(s, ts, n) == fnv(s, st_tys(ts, n))
+    decreases ts, 1int, n
+{
+    if 0 < n <= ts.len() {
+        eq_tys(s, ts, n - 1);
+        eq_ty(h_tys(s, ts, n - 1), ts[n - 1]);
+        fnv_concat(s, st_tys(ts, n - 1), st_ty(ts[n - 1]));
+    }
+}
+proof fn eq_nfs(s: u64, ts: Seq<&'static NamedField>, n: int)
+    ensures h_nfs(s, ts, n) == fnv(s, st_nfs(ts, n))
+    decreases ts, 1int, n
+{
+    if 0 < n <= ts.len() {
+        eq_nfs(s, ts, n - 1);
+        eq_nf(h_nfs(s, ts, n - 1), ts[n - 1]);
+        fnv_concat(s, st_nfs(ts, n - 1), st_nf(ts[n - 1]));
+    }
+}
+proof fn eq_vars(s: u64, ts: Seq<&'static Variant>, n: int)
+    ensures h_vars(s, ts, n) == fnv(s, st_vars(ts, n))
+    decreases ts, 1int, n
+{
+    if 0 < n <= ts.len() {
+        eq_vars(s, ts, n - 1);
+        eq_var(h_vars(s, ts, n - 1), ts[n - 1]);
+        fnv_concat(s, st_vars(ts, n - 1), st_var(ts[n - 1]));
+    }
+}
+proof fn eq_nf(s: u64, f: &NamedField)
+    ensures h_nf(s, f) == fnv(s, st_nf(f))
+    decreases f, 0int, 0int
+{
+    eq_ty(fnv(s, f.name.spec_bytes()), f.ty);
+    fnv_concat(s, f.name.spec_bytes(), st_ty(f.ty));
+}
+proof fn eq_var(s: u64, v: &Variant)
+    ensures h_var(s, v) == fnv(s, st_var(v))
+    decreases v, 0int, 0int
+{
+    let nb = v.name.spec_bytes();
+    let s1 = fnv(s, nb);
+    match v.data {
+        Data::Unit => { fnv_concat(s, nb, seq![0xB5u8]); }
+        Data::Newtype(t) => { eq_ty(fnv(s1, seq![0xDFu8]), t); fnv_concat(s1, seq![0xDFu8], st_ty(t)); fnv_concat(s, nb, seq![0xDFu8] + st_ty(t)); }
+        Data::Tuple(ts) => { eq_tys(fnv(s1, seq![0xC7u8]), ts@, ts@.len() as int); fnv_concat(s1, seq![0xC7u8], st_tys(ts@, ts@.len() as int)); fnv_concat(s, nb, seq![0xC7u8] + st_tys(ts@, ts@.len() as int)); }
+        Data::Struct(fs) => { eq_nfs(fnv(s1, seq![0x67u8]), fs@, fs@.len() as int); fnv_concat(s1, seq![0x67u8], st_nfs(fs@, fs@.len() as int)); fnv_concat(s, nb, seq![0x67u8] + st_nfs(fs@, fs@.len() as int)); }
+    }
+}
+proof fn eq_data_s(s: u64, d: &Data)
+    ensures h_data_s(s, d) == fnv(s, st_data_s(d))
+    decreases d, 0int, 0int
+{
+    match d {
+        Data::Unit => {}
+        Data::Newtype(t) => { eq_ty(fnv(s, seq![0x9Du8]), t); fnv_concat(s, seq![0x9Du8], st_ty(t)); }
+        Data::Tuple(ts) => { eq_tys(fnv(s, seq![0x05u8]), ts@, ts@.len() as int); fnv_concat(s, seq![0x05u8], st_tys(ts@, ts@.len() as int)); }
+        Data::Struct(fs) => { eq_nfs(fnv(s, seq![0x7Fu8]), fs@, fs@.len() as int); fnv_concat(s, seq![0x7Fu8], st_nfs(fs@, fs@.len() as int)); }
+    }
+}
+
+// ---------- real code against the fold spec: only ensures + loop invariants ----------
     pub(crate) const fn hash_update(mut state: u64, bytes: &[u8]) -> (r: u64)
-        ensures r == fnv(state, bytes@)
+        ensures r == fnv(state, bytes@), bytes@.len() == 1 ==> r == fnv_step(state, bytes@[0])
     {
         let mut idx = 0;
         let ghost s0 = state;
@@ -124,17 +255,15 @@ pub open spec fn st_data_s(d: &Data) -> Seq<u8>
             state ^= ext;
             state = state.wrapping_mul(Fnv1a64Hasher::PRIME);
             idx += 1;
-            proof {
-                assert(bytes@.subrange(0, idx as int).drop_last() =~= bytes@.subrange(0, idx as int - 1));
-            }
+            proof { assert(bytes@.subrange(0, idx as int).drop_last() =~= bytes@.subrange(0, idx as int - 1)); }
         }
-        proof { assert(bytes@.subrange(0, idx as int) =~= bytes@); }
+        proof { assert(bytes@.subrange(0, idx as int) =~= bytes@); if bytes@.len() == 1 { fnv1(s0, bytes@[0]); assert(bytes@ =~= seq![bytes@[0]]); } }
         state
     }
 
     #[verifier::exec_allows_no_decreases_clause]
     const fn hash_sdm_type(state: u64, sdmty: &'static DataModelType) -> (r: u64)
-        ensures r == fnv(state, st_ty(sdmty))
+        ensures r == h_ty(state, sdmty)
     {
         match sdmty {
             DataModelType::Bool => hash_update(state, &[0x11]),
@@ -148,10 +277,9 @@ pub open spec fn st_data_s(d: &Data) -> Seq<u8>
                 let ghost s1 = state;
                 let mut idx = 0;
                 while idx < ts.len()
-                    invariant idx <= ts.len(), state == fnv(s1, st_tys(ts@, idx as int))
+                    invariant idx <= ts.len(), state == h_tys(s1, ts@, idx as int)
                 {
                     state = hash_sdm_type(state, ts[idx]);
-                    proof { fnv_concat(s1, st_tys(ts@, idx as int), st_ty(ts[idx as int])); }
                     idx += 1;
                 }
                 state
@@ -162,10 +290,9 @@ pub open spec fn st_data_s(d: &Data) -> Seq<u8>
                 let ghost s1 = state;
                 let mut idx = 0;
                 while idx < variants.len()
-                    invariant idx <= variants.len(), state == fnv(s1, st_vars(variants@, idx as int))
+                    invariant idx <= variants.len(), state == h_vars(s1, variants@, idx as int)
                 {
                     state = hash_variant(state, variants[idx]);
-                    proof { fnv_concat(s1, st_vars(variants@, idx as int), st_var(variants[idx as int])); }
                     idx += 1;
                 }
                 state
@@ -174,7 +301,7 @@ pub open spec fn st_data_s(d: &Data) -> Seq<u8>
     }
     #[verifier::exec_allows_no_decreases_clause]
     const fn hash_struct(state: u64, _name: &str, data: &Data) -> (r: u64)
-        ensures r == fnv(state, st_data_s(data))
+        ensures r == h_data_s(state, data)
     {
         match data {
             Data::Unit => hash_update(state, &[0xBF]),
@@ -187,10 +314,9 @@ pub open spec fn st_data_s(d: &Data) -> Seq<u8>
                 let ghost s1 = state;
                 let mut idx = 0;
                 while idx < dmts.len()
-                    invariant idx <= dmts.len(), state == fnv(s1, st_tys(dmts@, idx as int))
+                    invariant idx <= dmts.len(), state == h_tys(s1, dmts@, idx as int)
                 {
                     state = hash_sdm_type(state, dmts[idx]);
-                    proof { fnv_concat(s1, st_tys(dmts@, idx as int), st_ty(dmts[idx as int])); }
                     idx += 1;
                 }
                 state
@@ -200,10 +326,9 @@ pub open spec fn st_data_s(d: &Data) -> Seq<u8>
                 let ghost s1 = state;
                 let mut idx = 0;
                 while idx < nfs.len()
-                    invariant idx <= nfs.len(), state == fnv(s1, st_nfs(nfs@, idx as int))
+                    invariant idx <= nfs.len(), state == h_nfs(s1, nfs@, idx as int)
                 {
                     state = hash_named_field(state, nfs[idx]);
-                    proof { fnv_concat(s1, st_nfs(nfs@, idx as int), st_nf(nfs[idx as int])); }
                     idx += 1;
                 }
                 state
@@ -212,9 +337,8 @@ pub open spec fn st_data_s(d: &Data) -> Seq<u8>
     }
     #[verifier::exec_allows_no_decreases_clause]
     const fn hash_variant(state: u64, nt: &Variant) -> (r: u64)
-        ensures r == fnv(state, st_var(nt))
+        ensures r == h_var(state, nt)
     {
-        let ghost s00 = state;
         let state = hash_update(state, nt.name.as_bytes());
         match nt.data {
             Data::Unit => hash_update(state, &[0xB5]),
@@ -227,10 +351,9 @@ pub open spec fn st_data_s(d: &Data) -> Seq<u8>
                 let ghost s1 = state;
                 let mut idx = 0;
                 while idx < ts.len()
-                    invariant idx <= ts.len(), state == fnv(s1, st_tys(ts@, idx as int))
+                    invariant idx <= ts.len(), state == h_tys(s1, ts@, idx as int)
                 {
                     state = hash_sdm_type(state, ts[idx]);
-                    proof { fnv_concat(s1, st_tys(ts@, idx as int), st_ty(ts[idx as int])); }
                     idx += 1;
                 }
                 state
@@ -240,10 +363,9 @@ pub open spec fn st_data_s(d: &Data) -> Seq<u8>
                 let ghost s1 = state;
                 let mut idx = 0;
                 while idx < fields.len()
-                    invariant idx <= fields.len(), state == fnv(s1, st_nfs(fields@, idx as int))
+                    invariant idx <= fields.len(), state == h_nfs(s1, fields@, idx as int)
                 {
                     state = hash_named_field(state, fields[idx]);
-                    proof { fnv_concat(s1, st_nfs(fields@, idx as int), st_nf(fields[idx as int])); }
                     idx += 1;
                 }
                 state
@@ -252,15 +374,11 @@ pub open spec fn st_data_s(d: &Data) -> Seq<u8>
     }
     #[verifier::exec_allows_no_decreases_clause]
     const fn hash_named_field(state: u64, nt: &NamedField) -> (r: u64)
-        ensures r == fnv(state, st_nf(nt))
+        ensures r == h_nf(state, nt)
     {
         let state = hash_update(state, nt.name.as_bytes());
         hash_sdm_type(state, nt.ty)
     }
-
-pub broadcast proof fn lemma_fnv_concat(s: u64, a: Seq<u8>, b: Seq<u8>)
-    ensures #[trigger] fnv(fnv(s, a), b) == fnv(s, a + b)
-{ fnv_concat(s, a, b); }
 
 } // verus!
 fn main() {}
